@@ -1,6 +1,7 @@
 """Per-property registry: which bounded models are checked and which scenario families are validated."""
 import fam_shapes as FS
 import fam_engine as FE
+import fam_model as FM
 
 COMMON_ASSUMPTIONS = [
     "TLC / SANY and the CommunityModules Json reader are trusted",
@@ -242,5 +243,43 @@ PROPERTIES = {
             tlc_family("tlc_histories", "GenEngine_hist", "C08", simulate=(150 if tier == "quick" else 1500, 20), seed=seed + 4, mask=M_IMM),
         ],
         "rule": "a case = one history; every live handle's digest is compared at every step; distinct by program hash",
+    },
+    "C13": {
+        "level_text": "AutodiffAbs!Update states the property (old - lr*g per parameter holding a gradient, same dims, tracked, slot emptied, others untouched, older handles intact); TLC checks UpdateExact on it and that the implementation-shaped update (flat concatenation, one fused multiply-add, drain skipping frozen parameters - as gd.rs is written) refines it for every parameter list of 1..2 (thorough 1..3) entries over 6 shapes, every subset holding a gradient, 5 learning rates, two updates in a row; the trace specification validates GradientDescent::update on the real crate for lists of 1..4 parameters with prime-valued data, gradients deposited through gradient_mut and through real passes, comparing every element, flag, slot and the digests of older handles",
+        "level_note": ENGINE_NOTE,
+        "technique": "TLC model checking (UpdateRefines, UpdateExact) + TLC trace validation of update histories on the real crate",
+        "mc": lambda tier: [mc("MC_Optimizer_" + tier, module="MC_Optimizer")],
+        "families": lambda tier, seed: [
+            {"name": "updates", "cases": FM.c13_cases(tier, seed), "mask": M_UPD | M_GRAD | {"immutable"},
+             "what": "parameter lists of 1..4 entries over 6 shapes, a subset holding gradients, learning rates {0, 1, 1/2, -2, 3/4}, two updates in a row, older clones kept alive; gradients from real passes with frozen parameters in between",
+             "require": {"updates": 400}},
+        ],
+        "rule": "a case = one parameter list x gradient subset x learning rate (two rounds); distinct by program hash",
+    },
+    "C14": {
+        "level_text": "MC_Model: TLC explores every batch sequence over 3 (thorough 5) iterations of the forward/backward/update loop of ModelAbs for three layer stacks and checks StepExact (each iteration equals one iteration from a FRESH state with the same parameter values, loss included), NoStaleGradient and PreviousReleased; the trace specification validates real Dense/Conv/Model/GradientDescent runs (1-2 dense layers with none/relu, a conv+dense stack, MSE, unbatched and batched inputs, changing batch sizes, model rebuilt between iterations) comparing the returned loss and every parameter after every iteration bit for bit, which carries the implementation's counters, pending sums, retained output and slots across iterations",
+        "level_note": ENGINE_NOTE + "; exactness bounds the history length (cases that leave the exact domain are skipped from that point, counted as 'left'); sigmoid/softmax/cross-entropy runs are judged in the real domain",
+        "technique": "TLC model checking (StepExact over iterations) + TLC trace validation of training loops on the real crate",
+        "mc": lambda tier: [mc("MC_Model_" + tier, module="MC_Model"), mc("MC_Engine_p2q" if tier == "quick" else "MC_Engine_p2")],
+        "families": lambda tier, seed: [
+            {"name": "training_loops", "cases": FM.c14_cases(tier, seed),
+             "mask": M_UPD | M_GRAD | {"loss", "values", "dims", "unexpected-panic", "into_vec-should-succeed"},
+             "what": "dense stacks (sizes 1..2, none/relu) and conv+dense stacks trained for 1..3 iterations with dyadic learning rates on unbatched / batched inputs with changing batch sizes; parameters observed through a delegating Layer wrapper; ownership of the previous iteration's input and old parameters probed after the next forward",
+             "require": {"updates": 100, "passes": 100, "owned": 100}},
+        ],
+        "rule": "a case = one training run; distinct by program hash",
+    },
+    "C15": {
+        "level_text": "ModelAbs writes the documented formulas (dense = activation(x W^T + b), conv layer = activation(conv + b) with one bias per filter, model forward = composition, mse = (target-output)^2/count, backward value = sum of the cost array) over TensorCore; the trace specification validates Layer::forward for vectors, single rows and batches (and a refused input), conv layers with strides and batches, the cost closures, Model::forward against the layer-by-layer composition and Model::backward's return value on the real crate, bit for bit; MC_Rules checks the mse derivative rule against dual numbers",
+        "level_note": ENGINE_NOTE + "; sigmoid / softmax activations and cross-entropy are judged in the real domain",
+        "technique": "TLA+ spec of the documented formulas as oracle + TLC trace validation of layers, costs and models of the real crate",
+        "mc": lambda tier: [mc("MC_Model_" + tier, module="MC_Model"), mc("MC_Rules_quick", module="MC_Rules")],
+        "families": lambda tier, seed: [
+            {"name": "layers_costs_models", "cases": FM.c15_cases(tier, seed),
+             "mask": {"values", "dims", "loss", "expected-refusal", "unexpected-panic", "layer-parameter-dims", "equality", "tracked-flag"},
+             "what": "dense layers 1..3 x 1..3 with none/relu on [n], [1,n], [B,n], [2,2,n] inputs and a refused size; conv layers over counts, depths, filter sizes, strides and batches; mse on 8 shapes; models of 1..3 layers compared with their layer-by-layer composition; Model::backward's value",
+             "require": {"judged": 500, "refusals": 10}},
+        ],
+        "rule": "a case = one layer / cost / model configuration; distinct by program hash",
     },
 }
